@@ -160,12 +160,13 @@ var ufs = map[string]func(in []byte, outLen int) []byte{}
 // SetUF registers the native implementation of an uninterpreted function.
 func SetUF(name string, f func(in []byte, outLen int) []byte) { ufs[name] = f }
 
-// Now returns an arbitrary non-decreasing clock reading (seconds).
-func Now() int64 {
-	v := int64(u64("Int64"))
-	clock = v
-	return v
-}
+// Now returns an arbitrary non-decreasing clock reading (seconds); natively the real clock.
+func Now() int64 { return time.Now().Unix() }
+
+// FreezeClock(true) makes time.Now constant until FreezeClock(false) (engine
+// only: the environment assumption that the clock does not tick inside one
+// operation; natively a no-op).
+func FreezeClock(on bool) {}
 
 // Observe records a value for predicted-vs-native comparison.
 func Observe(label string, v any) {}
